@@ -317,6 +317,13 @@ func init() {
 			}
 			return out
 		},
+		Alt386: func(c *CheckRun) []*Scenario {
+			var out []*Scenario
+			for k := kindU8; k <= kindF64; k++ {
+				out = append(out, simple("hCodec", "codec "+kindNames[k], k, 4))
+			}
+			return out
+		},
 		Bounds:      []string{"none within the listed types: x, y range over every bit pattern of uint8..uint64, uint, int8..int64, int, float32, float64 (GOARCH=amd64: int/uint are 64-bit)", "tuples: two-field concatenations of the same type"},
 		Outside:     []string{"Restore on byte strings that no Transform produces", "32-bit int/uint arms (GOARCH=386) are checked by the thorough tier only"},
 		Assumptions: []string{"float order and NaN-ness are stated in the solver's FP theory (fp.lt, fp.eq, fp.isNaN over to_fp of the bit patterns)", "go/ssa IR faithful to the source; z3 5.1.0 correct"},
@@ -351,7 +358,24 @@ func init() {
 		Assumptions: commonAssume,
 	})
 	register(&CheckSpec{
-		ID: "C10", Level: "model_checking", Rule: "a state is a finished symbolic path of one node-level harness: (a) the primitive over every input, (b) one add/remove/find from an arbitrary state satisfying the representation invariant (inductive step), (c) a concrete base node with one symbolic add/remove and a symbolic probe",
+		ID: "C10", Level: "model_checking",
+		// second load with GOARCH=386: the portable node16_other.go routines (no assembly on that target)
+		Alt386: func(c *CheckRun) []*Scenario {
+			var out []*Scenario
+			ns := func(s *Scenario) *Scenario { s.NoSummaries = true; return s }
+			out = append(out, ns(simple("hEqSearch16", "portable searchNode16 == scalar scan", 255)), ns(simple("hEqInsertPos16", "portable insertPosNode16 == scalar scan", 255)))
+			out = append(out, ns(simple("hEqSearch4", "searchNode4 == scalar scan", 255)), ns(simple("hEqInsertPos4", "insertPosNode4 == scalar scan", 255)))
+			for _, n := range []int{0, 4, 5, 12, 15, 16} {
+				for op := 0; op <= 2; op++ {
+					if (op == 1 && n < 4) || (op == 0 && n == 16) {
+						continue
+					}
+					out = append(out, ns(simple("hNode16Step", "node16 inductive step (portable routines)", n, op, 1)))
+				}
+			}
+			return out
+		},
+		Rule:      "a state is a finished symbolic path of one node-level harness: (a) the primitive over every input, (b) one add/remove/find from an arbitrary state satisfying the representation invariant (inductive step), (c) a concrete base node with one symbolic add/remove and a symbolic probe",
 		Scenarios: nodeScenarios,
 		Bounds: []string{"(a) searchNode4, insertPosNode4, searchNode16, insertPosNode16 (Plan 9 amd64 assembly translated on every run) and the node4 word helpers: every input, no bound",
 			"(b) node4: every fill count 0..4, arbitrary lanes under Inv4 (occupied lanes ascending, unoccupied lanes equal), stale or nil slots, symbolic byte and probe; incl. growth to node16 and collapse into an inner child with parent/child path lengths around maxPrefixLen. node16: every fill count, arbitrary lanes under Inv16, add (n<16) / remove / find, incl. shrink to node4. By induction these hold after any history.",
